@@ -257,7 +257,7 @@ def calculate_damped_oscillation_matrix_gaussian_irf(
         half of the second dimension representing the real part,
         and the other the imagine part of the oscillation
     """
-    shifted_axis = model_axis - center - shift
+    shifted_axis = model_axis - (center - shift)
     # For calculations using the negative rates we use the time axis
     # from the beginning up to 5 σ from the irf center
     left_shifted_axis_indices = np.where(shifted_axis < 5 * width)[0]
